@@ -256,6 +256,11 @@ def pyPrlimitSet (k : Kernel) (pid : Nat) (res : Int) (limits : List Int) : Exce
 structure Cfg where
   /-- `IOPRIO_CLASS_SHIFT` of arch/linux/proc.c -/
   shift : Nat
+  /-- the three `IOPRIO_PRIO_*` macros have the canonical shape
+      (`mask >> SHIFT`, `mask & ((1UL << SHIFT) - 1)`, `(class << SHIFT) | data`) -/
+  macrosCanonical : Bool
+  /-- `if value is None: value = defaultLevel` in `ionice_set` -/
+  defaultLevel : Int
   /-- `value < levelMin or value > levelMax` in `ionice_set` -/
   levelMin : Int
   levelMax : Int
@@ -272,6 +277,10 @@ structure Cfg where
   /-- `cpu_affinity([])`: `some n` = ask the kernel for CPUs `0..n-1` and let it keep the
       eligible ones; `none` = use `_get_eligible_cpus()` (which reads the *current* mask) -/
   emptyAsksAll : Option Nat
+  /-- the get form returns `sorted(set(…))` of what the native layer reports -/
+  getSortedSet : Bool
+  /-- the set form hands `list(set(cpus))` to the platform layer -/
+  setDedup : Bool
 
 inductive Exc
   | valueError
@@ -322,7 +331,7 @@ def ioniceGet (c : Cfg) (k : Kernel) (pid : Nat) : Out × Kernel :=
     else (.exc .valueError, k)
 
 def ioniceSet (c : Cfg) (k : Kernel) (pid : Nat) (ioclass : Int) (value : Option Int) : Out × Kernel :=
-  let value := value.getD 0
+  let value := value.getD c.defaultLevel
   if value ≠ 0 ∧ c.noValueClasses.contains ioclass then (.exc .valueError, k)
   else if value < c.levelMin ∨ value > c.levelMax then (.exc .valueError, k)
   else match cextIoprioSet c.shift k pid ioclass value with
@@ -404,20 +413,22 @@ inductive Req
   | rlimit (res : Int) (limits : Option (List Int))
   deriving DecidableEq, Repr
 
+def dedup (c : Cfg) (cpus : List Int) : List Int := if c.setDedup then pySet cpus else cpus
+
 def cpuAffinity (c : Cfg) (k : Kernel) (pid : Nat) : Option (List Int) → Out × Kernel
   | none =>
     match cextAffinityGet k pid with
-    | .ok l => (.ok (.cpus (sortedSet l)), k)
+    | .ok l => (.ok (.cpus (if c.getSortedSet then sortedSet l else l)), k)
     | .error e => (.exc (wrapExc pid e), k)
   | some cpus =>
     if cpus.isEmpty then
       match c.emptyAsksAll with
-      | some n => cpuAffinitySet k pid (pySet ((List.range n).map Int.ofNat))
+      | some n => cpuAffinitySet k pid (dedup c ((List.range n).map Int.ofNat))
       | none =>
         match getEligibleCpus k pid with
         | none => (.exc (.noSuchProcess pid), k)
-        | some el => cpuAffinitySet k pid (pySet (el.map Int.ofNat))
-    else cpuAffinitySet k pid (pySet cpus)
+        | some el => cpuAffinitySet k pid (dedup c (el.map Int.ofNat))
+    else cpuAffinitySet k pid (dedup c cpus)
 
 /-- one public call on `psutil.Process(pid)` (the PID-reuse guard is property C01's) -/
 def step (c : Cfg) (k : Kernel) (pid : Nat) : Req → Out × Kernel
